@@ -1,7 +1,8 @@
 #!/usr/bin/env python3
-"""Regenerates MANIFEST.json from props.json (claimed checks) — run after editing props.json."""
+"""Regenerates MANIFEST.json from props/Cxx.json (claimed checks) — run after editing props/."""
 import json
-props = json.load(open("props.json"))
+import glob, os
+props = {os.path.basename(p)[:-5]: json.load(open(p)) for p in glob.glob("props/C*.json")}
 ids = ["C%02d" % i for i in range(1, 21)]
 checks, na = [], []
 for pid in ids:
